@@ -1,7 +1,7 @@
 SPECIFICATION Spec
 CONSTANTS NV = 4
           Mode = "C32"
-          Areas = {"node", "sc", "rel"}
+          Areas = {"node", "sc", "rel", "sv"}
           AltSp = TRUE
           MaxView = 2
           MaxHeight = 1
